@@ -10,7 +10,8 @@ def tasks(tier):
             + other_tasks("contracts.faults_bounded", "C04", "bounded")
             + contract_tasks("contracts.dataplane", "C04", tier=tier)
             + contract_tasks("contracts.connect", "C04", tier=tier)
-            + contract_tasks("contracts.sim_process", "C04", tier=tier, names=["WaitForDependencies"]))
+            + contract_tasks("contracts.sim_process", "C04", tier=tier, names=["WaitForDependencies"])
+            + contract_tasks("contracts.tiered_time", "C08"))
 
 
 TRUSTED_BASE = TRUSTED_CORE
